@@ -212,7 +212,7 @@ class Contract:
     def __init__(self, target, props, params, pre=(), post=(), raises=None, post_exc=None, modifies=(),
                  returns=None, loops=None, unroll=None, inline=(), locals_=None, globals_=None,
                  build=None, always_inline=False, assume_noraise=False, any_raises=None, note="",
-                 ghost_pre=(), checks=None, max_cases=400, enter=(), obj_fields=None, obj_protocol=None, ghost=None, mutable_fields=(), obj_methods=None, opaque_methods=None):
+                 ghost_pre=(), checks=None, max_cases=400, enter=(), obj_fields=None, obj_protocol=None, ghost=None, mutable_fields=(), obj_methods=None, opaque_methods=None, aliases=None, regex_total=None):
         self.target = target
         self.props = list(props)
         self.params = dict(params)
@@ -240,6 +240,9 @@ class Contract:
         self.mutable_fields = set(mutable_fields)
         self.obj_methods = dict(obj_methods or {})
         self.opaque_methods = dict(opaque_methods or {})
+        self.aliases = dict(aliases or {})
+        self.regex_total = dict(regex_total or {})
+        self._alias_map = None
         REGISTRY[target] = self
 
     @property
@@ -256,7 +259,40 @@ class Contract:
             return {k: v for k, v in self.unroll.items() if isinstance(k, int)}
         return {k[1]: v for k, v in self.unroll.items() if isinstance(k, tuple) and k[0] == fname}
 
+    def resolve_aliases(self, fn_node):
+        """Role-based names for locals, recomputed from the current AST so that contracts do not
+        depend on incidental variable names: 'empty-list-local', 'while-var'."""
+        import ast
+
+        out = {}
+        for alias, role in self.aliases.items():
+            cands = []
+            if role == "empty-list-local":
+                for n in ast.walk(fn_node):
+                    tgt = None
+                    if isinstance(n, ast.Assign) and len(n.targets) == 1:
+                        tgt, val = n.targets[0], n.value
+                    elif isinstance(n, ast.AnnAssign) and n.value is not None:
+                        tgt, val = n.target, n.value
+                    if tgt is not None and isinstance(tgt, ast.Name) and isinstance(val, ast.List) and not val.elts:
+                        cands.append(tgt.id)
+            elif role == "while-var":
+                for n in ast.walk(fn_node):
+                    if isinstance(n, ast.While):
+                        stored = {x.id for b in n.body for x in ast.walk(b) if isinstance(x, ast.Name) and isinstance(x.ctx, ast.Store)}
+                        cands = [x.id for x in ast.walk(n.test) if isinstance(x, ast.Name) and x.id in stored]
+                        break
+            cands = sorted(set(cands))
+            if len(cands) == 1:
+                out[alias] = cands[0]
+        self._alias_map = out
+        return out
+
     def local_kind(self, fname, var):
+        if self._alias_map:
+            for alias, real in self._alias_map.items():
+                if real == var and alias in self.locals_:
+                    return self.locals_[alias]
         v = self.locals_.get(var)
         if isinstance(v, dict):
             return v.get(fname)
